@@ -367,6 +367,30 @@ func init() {
 			return m.zero(fr.fn.Signature.Results().At(0).Type())
 		},
 
+		// maps.clone (linknamed to the runtime): a shallow copy
+		"maps.clone": func(m *Machine, fr *frame, a []Value) Value {
+			it := a[0].(Iface)
+			src, _ := it.v.(*Map)
+			if src == nil {
+				return it
+			}
+			dst := newMap()
+			for _, e := range src.order {
+				if e.dead {
+					continue
+				}
+				ne := &mapEntry{k: e.k, v: m.copyVal(e.v), ks: e.ks, concrete: e.concrete}
+				dst.order = append(dst.order, ne)
+				if ne.concrete {
+					dst.idx[ne.ks] = ne
+				} else {
+					dst.nsym++
+				}
+				dst.live++
+			}
+			return Iface{t: it.t, v: dst}
+		},
+
 		// rawalloc.New(len, cap): uninitialised bytes (modelled as zero, like make)
 		"github.com/cockroachdb/pebble/internal/rawalloc.New": func(m *Machine, fr *frame, a []Value) Value {
 			ln, cp := term(a[0]), term(a[1])
